@@ -288,6 +288,7 @@ class CallSim:
             self.scan.append(k)
         np = self.np
         vec = np.array(a["probabilities_array"], dtype=np.float64)
+        self.record_kernel("call_gibbs", x, k, a, vec)
         if not np.array_equal(a["genotype_alleles"], x):
             self.viol("state_update", "gibbs_options did not restore the genotype", before=x, after=a["genotype_alleles"])
         if "db" in self.checks:
@@ -337,6 +338,7 @@ class CallSim:
             self.scan.append(k)
         np = self.np
         px = np.array(a["probabilities_array"], dtype=np.float64)
+        self.record_kernel("call_mh", x, k, a, px)
         if not np.array_equal(a["genotype_alleles"], x):
             self.viol("state_update", "mh_options did not restore the genotype", before=x, after=a["genotype_alleles"])
         if "db" in self.checks:
@@ -378,6 +380,17 @@ class CallSim:
             if len(set(x.tolist())) < len(x):
                 self.ctx.counters.inc("dup_state_move")
         return out
+
+    def record_kernel(self, kind, x, k, a, vec):
+        """A few (arguments -> vector) records per run for the compiled-kernel comparison (thorough tier)."""
+        if not self.cfg.get("record_kernels") or len(self.ctx.extra) >= 2 or not self.np.all(self.np.isfinite(vec)):
+            return
+        np = self.np
+        reads = np.where(np.isnan(self.reads), None, self.reads).tolist() if len(self.reads) else []
+        reads = [[[None if v is None else float(v) for v in row] for row in rd] for rd in reads]
+        self.ctx.extra.append({"kind": kind, "genotype": x.tolist(), "k": k, "haplotypes": self.haps.tolist(), "reads": reads,
+                               "counts": self.counts.tolist(), "inbreeding": self.F, "frequencies": None if self.freqs is None else self.freqs.tolist(),
+                               "vector": vec.tolist()})
 
     def w_cached(self, *args, **kwargs):
         a = bind(self.real["cached"], args, kwargs)
